@@ -176,13 +176,13 @@ pub struct Case {
     /// constraint of the parent type in contexts 15, 16, 19
     pub parent: Option<Atom>,
 }
-pub const CTX_NAMES: [&str; 20] = [
+pub const CTX_NAMES: [&str; 24] = [
     "INTEGER-assignment", "INTEGER-component", "constrained-reference-assignment", "constrained-reference-component", "value-reference-endpoints", "named-number-endpoints",
-    "OCTET-STRING-SIZE-assignment", "BIT-STRING-SIZE-component", "IA5String-SIZE-assignment", "SEQUENCE-OF-SIZE-assignment", "SET-OF-SIZE-component", "BMPString-SIZE-component", "named-numbers-of-referenced-type", "INTEGER-object-set-alternative", "OCTET-STRING-SIZE-object-set-alternative", "constrained-parent-assignment", "constrained-parent-component", "OCTET-STRING-SIZE-per-operand-assignment", "IA5String-SIZE-per-operand-component", "constrained-parent-SIZE-assignment",
+    "OCTET-STRING-SIZE-assignment", "BIT-STRING-SIZE-component", "IA5String-SIZE-assignment", "SEQUENCE-OF-SIZE-assignment", "SET-OF-SIZE-component", "BMPString-SIZE-component", "named-numbers-of-referenced-type", "INTEGER-object-set-alternative", "OCTET-STRING-SIZE-object-set-alternative", "constrained-parent-assignment", "constrained-parent-component", "OCTET-STRING-SIZE-per-operand-assignment", "IA5String-SIZE-per-operand-component", "constrained-parent-SIZE-assignment", "OCTET-STRING-SIZE-value-reference-endpoints", "BIT-STRING-SIZE-component-value-reference-endpoints", "SEQUENCE-OF-SIZE-value-reference-endpoints", "string-SIZE-component-value-reference-endpoints",
 ];
 impl Case {
     fn is_size(&self) -> bool {
-        (6..=11).contains(&self.ctx) || matches!(self.ctx, 14 | 17 | 18 | 19)
+        (6..=11).contains(&self.ctx) || matches!(self.ctx, 14 | 17 | 18 | 19 | 20..=23)
     }
     fn key(&self) -> String {
         let mut n = vec![];
@@ -209,7 +209,7 @@ impl Case {
     }
     fn emit(&self, n: usize, src: &mut String) -> (String, Option<String>) {
         let sp = match self.ctx {
-            4 => 1,
+            4 | 20..=23 => 1,
             5 | 12 => 2,
             _ => 0,
         };
@@ -224,6 +224,11 @@ impl Case {
         names.retain(|(n, _)| !n.starts_with('#'));
         for d in defs.chunks(2) {
             src.push_str(&format!("{} ::= INTEGER ({}..{})\n", &d[0].0[1..], d[0].1, d[1].1));
+        }
+        if sp == 1 {
+            for (nm, v) in &names {
+                src.push_str(&format!("{nm} INTEGER ::= {v}\n"));
+            }
         }
         let mut sz = format!("(SIZE{c})");
         if matches!(self.ctx, 17 | 18) {
@@ -253,11 +258,25 @@ impl Case {
                 (format!("Tq{n}"), Some("fq1".into()))
             }
             4 => {
-                for (nm, v) in &names {
-                    src.push_str(&format!("{nm} INTEGER ::= {v}\n"));
-                }
                 src.push_str(&format!("Tq{n} ::= INTEGER {c}\n"));
                 (format!("Tq{n}"), None)
+            }
+            // size bounds written with value references (the only reference of the assignment)
+            20 => {
+                src.push_str(&format!("Tq{n} ::= OCTET STRING {sz}\n"));
+                (format!("Tq{n}"), None)
+            }
+            21 => {
+                src.push_str(&format!("Tq{n} ::= SEQUENCE {{ fq1 BIT STRING {sz} }}\n"));
+                (format!("Tq{n}"), Some("fq1".into()))
+            }
+            22 => {
+                src.push_str(&format!("Tq{n} ::= SEQUENCE {sz} OF BOOLEAN\n"));
+                (format!("Tq{n}"), None)
+            }
+            23 => {
+                src.push_str(&format!("Tq{n} ::= SEQUENCE {{ fq1 IA5String {sz}, fq2 OCTET STRING {sz} }}\n"));
+                (format!("Tq{n}"), Some(if n % 2 == 0 { "fq1" } else { "fq2" }.into()))
             }
             5 => {
                 let nn: Vec<String> = names.iter().map(|(nm, v)| format!("{nm}({v})")).collect();
@@ -659,9 +678,9 @@ fn random_expr(rng: &mut Rng, at: &[Atom], max_atoms: usize) -> Expr {
 pub fn run(ctx: &Ctx) -> Report {
     let mut rep = Report::new(
         "exploration",
-        "subtype expressions as unions of intersections of (atom [EXCEPT atom]) or ALL EXCEPT atom; atoms = single values, a..b, MIN..b, a..MAX, MIN..MAX over an endpoint alphabet; optional outer `, ...`; optional second serial constraint; spelled with | ^ or UNION INTERSECTION; endpoints as literals, value references or named numbers; on INTEGER (assignment, component, constrained reference) and via SIZE on OCTET STRING, BIT STRING, IA5String, BMPString, SEQUENCE OF, SET OF. EXHAUSTIVE for <= 2 atoms over the 5-point alphabet {-300,-1,0,5,300} (SIZE: {0,1,5,255,300}) in the INTEGER-assignment, INTEGER-component and OCTET-STRING-SIZE contexts; seeded random for 3..4 atoms, the 7-point alphabet, serial constraints and the remaining contexts. Oracle: emitted value()/size()/Fixed*String<n> = hull of the PER-visible set (EXCEPT ignored, ^ intersects, | unites), never excluding a permitted value (exact set semantics), extensible flag = marker. Added spellings (enumerated over the 5-point alphabet): open range ends `a..<b`, `a<..b`, `a<..<b` (the endpoint is excluded); contained subtypes `Tc` / `INCLUDES Tc` as operands of |, ^, EXCEPT and in serial position (judged for exclusion of permitted values under every reading, for width under either reading of their PER-visibility); constrained parent types `Tp ::= INTEGER (p)`, `Tq ::= Tp (c)` / component `f Tp (c)` / `OCTET STRING (SIZE (p))` parent, where the bound in force is the emitted annotation intersected with the parent item's annotation, as the rasn derives compose them; SIZE written per operand `(SIZE (a) | SIZE (b))`, `(SIZE (a) EXCEPT SIZE (b))`, where additionally a value(..) annotation on a type that has no integer value is a violation. Expressions whose exact set is empty are skipped; cases the compiler rejects or warns about are not claims. Non-trivial = bound compared; distinct by constraint text and context.",
+        "subtype expressions as unions of intersections of (atom [EXCEPT atom]) or ALL EXCEPT atom; atoms = single values, a..b, MIN..b, a..MAX, MIN..MAX over an endpoint alphabet; optional outer `, ...`; optional second serial constraint; spelled with | ^ or UNION INTERSECTION; endpoints as literals, value references or named numbers; on INTEGER (assignment, component, constrained reference) and via SIZE on OCTET STRING, BIT STRING, IA5String, BMPString, SEQUENCE OF, SET OF. EXHAUSTIVE for <= 2 atoms over the 5-point alphabet {-300,-1,0,5,300} (SIZE: {0,1,5,255,300}) in the INTEGER-assignment, INTEGER-component and OCTET-STRING-SIZE contexts; seeded random for 3..4 atoms, the 7-point alphabet, serial constraints and the remaining contexts. Oracle: emitted value()/size()/Fixed*String<n> = hull of the PER-visible set (EXCEPT ignored, ^ intersects, | unites), never excluding a permitted value (exact set semantics), extensible flag = marker. Added spellings (enumerated over the 5-point alphabet): open range ends `a..<b`, `a<..b`, `a<..<b` (the endpoint is excluded); contained subtypes `Tc` / `INCLUDES Tc` as operands of |, ^, EXCEPT and in serial position (judged for exclusion of permitted values under every reading, for width under either reading of their PER-visibility); constrained parent types `Tp ::= INTEGER (p)`, `Tq ::= Tp (c)` / component `f Tp (c)` / `OCTET STRING (SIZE (p))` parent, where the bound in force is the emitted annotation intersected with the parent item's annotation, as the rasn derives compose them; size bounds with value references as endpoints on OCTET STRING, BIT STRING, IA5String and SEQUENCE OF (the references being the only ones of the assignment); SIZE written per operand `(SIZE (a) | SIZE (b))`, `(SIZE (a) EXCEPT SIZE (b))`, where additionally a value(..) annotation on a type that has no integer value is a violation. Expressions whose exact set is empty are skipped; cases the compiler rejects or warns about are not claims. Non-trivial = bound compared; distinct by constraint text and context.",
     );
-    rep.must_observe = vec!["bounds_compared".into(), "bounds_compared[INTEGER-object-set-alternative]".into(), "bounds_compared[INTEGER-component]".into(), "bounds_compared[OCTET-STRING-SIZE-assignment]".into(), "bounds_compared[constrained-parent-assignment]".into(), "bounds_compared[constrained-parent-component]".into(), "bounds_compared[OCTET-STRING-SIZE-per-operand-assignment]".into(), "bounds_compared[IA5String-SIZE-per-operand-component]".into()];
+    rep.must_observe = vec!["bounds_compared".into(), "bounds_compared[INTEGER-object-set-alternative]".into(), "bounds_compared[INTEGER-component]".into(), "bounds_compared[OCTET-STRING-SIZE-assignment]".into(), "bounds_compared[constrained-parent-assignment]".into(), "bounds_compared[constrained-parent-component]".into(), "bounds_compared[OCTET-STRING-SIZE-per-operand-assignment]".into(), "bounds_compared[IA5String-SIZE-per-operand-component]".into(), "bounds_compared[OCTET-STRING-SIZE-value-reference-endpoints]".into(), "bounds_compared[SEQUENCE-OF-SIZE-value-reference-endpoints]".into()];
     rep.assumptions = vec!["X.691 10.3 as implemented in c04.rs (Expr::per_visible) over the brute-force-tested interval sets of iv.rs".into(), "parenthesised sub-expressions and an open lower end (`a<..b`) are rejected by the compiler's parser and therefore not claims".into(), "rasn 0.27 derives intersect the constraints of a delegate / field with those of its inner type (asn_type.rs:105, config.rs:886), which is why a constrained parent's bound need not be repeated on the referencing item".into()];
     let e5: [i128; 5] = [-300, -1, 0, 5, 300];
     let s5: [i128; 5] = [0, 1, 5, 255, 300];
@@ -781,6 +800,12 @@ pub fn run(ctx: &Ctx) -> Report {
             extra.push(Case { expr: e.clone(), ext, serial: None, ctx: 17, words: false, parent: None });
         }
         extra.push(Case { expr: e.clone(), ext: false, serial: None, ctx: 18, words: false, parent: None });
+    }
+    // (e) size bounds whose endpoints are value references
+    for e in two_operand(&sat).into_iter().step_by(2) {
+        for (k, c) in [20u8, 21, 22, 23].into_iter().enumerate() {
+            extra.push(Case { expr: e.clone(), ext: k % 2 == 1 && e.all_except.is_none() && !e.terms.iter().flatten().any(|(_, x)| x.is_some()), serial: None, ctx: c, words: false, parent: None });
+        }
     }
     rep.extra.insert("extra_spelling_cases".into(), json!(extra.len()));
     cases.extend(extra);
